@@ -207,7 +207,7 @@ package queue
 //@   ensures result == fq.queue
 //@ end
 //@ func fanOutQueue.Sync
-//@   prop C06
+//@   prop C06 C07 C08
 //@   requires fq.consumerGroups != nil && QOK(fq.queue) && all(n, "string", has(fq.consumerGroups, n) ==> cgRefOK(fq.consumerGroups[n]))
 //@   modifies cast(fq.queue, "*queue").acknowledgedSeq.val, cast(cast(fq.queue, "*queue").metaPage, "*page.mappedPage").mappedBytes[*]
 //@   ensures Qack(fq.queue) >= old(Qack(fq.queue))
